@@ -312,8 +312,44 @@ def r6_exact_mixed_comparison(ctx, F):
     ctx.floor("C09.R6", "calls/casts inspected under number comparison", n, 15, inventory=True)
 
 
+def r7_canonical_order_compare(ctx, F):
+    """struct equality ignores field order (equals_small_map looks every key up), so the ordering must too: in
+    compare_small_map every comparison of two field values takes its operands from the key-sorted iteration"""
+    f = F.one(r"values::comparison::compare_small_map$")
+    pc = re.compile(r"(Iterator(>)?::(next|zip|map|enumerate)$|IntoIterator(>)?::into_iter$|Try>::branch$|"
+                    r"Option::<.*>::(unwrap\w*|expect)$)")
+    n = 0
+    for c in f.calls:
+        if c.bb in f.cleanup or not re.search(r"ops::Fn(Mut|Once)?::call(_mut|_once)?$", c.name) or len(c.args) < 2:
+            continue
+        who = {o[1] for o in origins(f, c.args[0], pass_calls=None) if o[0] == "param"}
+        if "_4" not in who:  # the value comparator is the 4th parameter; `key` (3rd) is applied to keys
+            continue
+        n += 1
+        srcs = set()
+        work, done = [c.args[1]], set()
+        while work:
+            op = work.pop()
+            if op in done:
+                continue
+            done.add(op)
+            for o in origins(f, op, pass_calls=pc, through_all_args=True):
+                if o[0] == "call":
+                    srcs.add(o[1].name)
+                elif o[0] == "agg":  # the argument tuple / a pair: follow its components
+                    work.extend(" | ".join(o[1].ops).split(" | "))
+        ctx.check(any(re.search(r"Itertools::sorted\w*$|::sort\w*$", x) for x in srcs), "C09.R7",
+                  "struct-compare-sorted:call@%d" % n,
+                  "the compared field values come from the key-sorted iteration of both maps",
+                  "compare_small_map compares field values taken from %s, not from the key-sorted iteration: structs "
+                  "that are equal (same fields in another order) now order differently against a third struct"
+                  % sorted(short_fn(x) for x in srcs), fn=f, line=c.line)
+    ctx.floor("C09.R7", "value comparisons in compare_small_map", n, 1)
+
+
 def run(ctx):
     F = ctx.facts("core")
+    r7_canonical_order_compare(ctx, F)
     r6_exact_mixed_comparison(ctx, F)
     r4_slices(ctx, F)
     r5_sorted(ctx, F)
